@@ -51,7 +51,12 @@ def generate(seed, tier):
         val = eval(e[1], {'__builtins__': {}}, {})
         if isinstance(val, float):
             e[1] = '[%s,] * %d' % (repr(val), T + 1)
-    ta = S['swarm'].choice(['default', 'default', 'user_lag', 'user_exo', 'user_const'])
+    if S['swarm'].random() < 0.35:
+        # the step k is a legal token in user equations (the in-process solver supplies it)
+        block['eqs'].append(['trend', '1.0 + 0.1*k'])
+        if S['swarm'].random() < 0.5:
+            block['eqs'][0][1] += ' + 0.01*k'
+    ta = S['swarm'].choice(['default', 'default', 'user_lag', 'user_exo', 'user_const', 'user_k'])
     if ta == 'user_lag':
         block['eqs'].append(['t', 'LAG_t + 1.0'])
         block['lags'].append(['LAG_t', 't', 'k'])
@@ -59,6 +64,8 @@ def generate(seed, tier):
         block['exo'].append(['t', '[' + ', '.join(repr(1990.0 + i) for i in range(T + 1)) + ']'])
     elif ta == 'user_const':
         block['eqs'].append(['t', '5.0'])
+    elif ta == 'user_k':
+        block['eqs'].append(['t', '2010.0 + 0.25*k'])
     return {'kind': 'GEN', 'bundled': None, 'block': block, 'faults': faults, 'time_axis': ta,
             'knobs': {'reduction': S['knobs'].random() < 0.25}}
 
